@@ -107,12 +107,14 @@ package db
 //@   nosafety
 //@   modifies *
 //@   requires ldb != nil
+//@   ensures [kept_on_error] err != nil ==> ldb.flushed == old(ldb.flushed) && ghost(list_inits) == old(ghost(list_inits))
+//@   ensures [committed] err == nil && !old(ldb.flushed) ==> ldb.flushed == write && ghost(list_inits) == old(ghost(list_inits)) + 1
 //@   callpre Set: item.value != nil && value == item.value && b == item.bk.real && len(key) == len(item.key) && (forall i int :: {key[i]} 0 <= i && i < len(key) ==> key[i] == item.key[i])
 //@   callpre Delete: item.value == nil && b == item.bk.real && len(key) == len(item.key) && (forall i int :: {key[i]} 0 <= i && i < len(key) ==> key[i] == item.key[i])
-//@   loop 0: invariant true
-//@   loop 1: invariant true
-//@   loop 2: invariant true
-//@   loop 3: invariant true
+//@   loop 0: invariant ldb.flushed == old(ldb.flushed) && ghost(list_inits) == old(ghost(list_inits))
+//@   loop 1: invariant ldb.flushed == old(ldb.flushed) && ghost(list_inits) == old(ghost(list_inits))
+//@   loop 2: invariant ldb.flushed == old(ldb.flushed) && ghost(list_inits) == old(ghost(list_inits))
+//@   loop 3: invariant ldb.flushed == old(ldb.flushed) && ghost(list_inits) == old(ghost(list_inits))
 
 // hashers (C20): Hash is a function of the hasher and the bytes
 //@ property C20
@@ -134,3 +136,16 @@ package db
 //@   trusted
 //@   pure
 //@   opt ghost:hasher_q h
+
+// a new layer sits directly on the database it is given - also when that is a layer itself (its
+// pending writes must stay visible through the new layer and must not be bypassed by a commit)
+//@ property C19
+//@ func NewLayerDB(database) (r)
+//@   arith int
+//@   nosafety
+//@   modifies *
+//@   opt no-callee-pre
+//@   opt inline-none
+//@   opt protect-local ldb.real
+//@   ensures [wraps_given] (typeof(r) == typeid(ptr_layerDB) ==> as(ptr_layerDB, r).real == database) && (typeof(r) == typeid(ptr_layerDBContext) ==> typeof(as(ptr_layerDBContext, r).LayerDB) == typeid(ptr_layerDB) && as(ptr_layerDB, as(ptr_layerDBContext, r).LayerDB).real == database)
+//@   ensures [one_of] typeof(r) == typeid(ptr_layerDB) || typeof(r) == typeid(ptr_layerDBContext)
